@@ -93,7 +93,7 @@ Definition check_C12 (op : bytes) (input impl : arg) : arg :=
     | AL [AZ 2%Z] => AS "inspection of a PGP key panicked"
     | AL [AZ 0%Z; ia] =>
         if Z.eqb (arg_Z (arg_nth 0 ref)) 0 then AL []
-        else verdict (check_description private ref (info_of_arg ia))
+        else verdict (check_ref private ref (info_of_arg ia))
     | _ => AS "inspection failed"
     end
   else AL [].
